@@ -23,6 +23,14 @@ def flat_names(t):
     return [n._name for n in t._nodes], [int(a) for a in t._n_args]
 
 
+def sstr(t):
+    """str(tree) that cannot raise on a malformed tree"""
+    try:
+        return str(t)
+    except Exception:
+        return "<malformed: %s / %s>" % ([n._name for n in t._nodes], [int(a) for a in t._n_args])
+
+
 def well_formed(t, us_names=None):
     names, ar = flat_names(t)
     if len(names) != len(ar) or not TL.wf(ar):
@@ -84,10 +92,10 @@ def main(tier: str) -> int:
         names, ar = flat_names(child)
         pdepth = max(depth_of(flat_names(p)[1]) for p in parents)
         if pdepth <= max_level and depth_of(ar) > max_level:
-            chk.fail("parents within max_level produced a deeper child", {**d, "child": str(child), "depth": depth_of(ar), "max_level": max_level}, {"fn": opname, "clause": "depth"})
+            chk.fail("parents within max_level produced a deeper child", {**d, "child": sstr(child), "depth": depth_of(ar), "max_level": max_level}, {"fn": opname, "clause": "depth"})
         allowed = {n._name for p in parents for n in p._nodes} | {n._name for n in us._terminal_set} | {n._name for v in us._functional_set.values() for n in v}
         if any(nm not in allowed for nm in names) and "eph" not in d:
-            chk.fail("the child contains a symbol from neither a parent nor the universal set", {**d, "child": str(child)}, {"fn": opname, "clause": "symbols"})
+            chk.fail("the child contains a symbol from neither a parent nor the universal set", {**d, "child": sstr(child)}, {"fn": opname, "clause": "symbols"})
         return True
 
     # ------------------------------------------------------------------ crossovers
@@ -115,7 +123,7 @@ def main(tier: str) -> int:
             chk.fail("a crossover raises on well-formed parents", {**d, "error": repr(e)[:160]}, {"fn": name, "clause": "raises"})
             continue
         chk.count(name)
-        chk.case((name, tuple(str(p) for p in parents), str(child)), sample={**d, "child": str(child)} if len(chk.samples) < 4 else None)
+        chk.case((name, tuple(str(p) for p in parents), sstr(child)), sample={**d, "child": sstr(child)} if len(chk.samples) < 4 else None)
         if [flat_names(p) for p in parents] != before:
             chk.fail("a crossover modified its parents", d, {"fn": name, "clause": "inputs"})
         if not check_child(name, parents, child, L, d):
@@ -146,7 +154,7 @@ def main(tier: str) -> int:
                     if ok:
                         break
             if not ok:
-                chk.fail("standard crossover child is neither a parent with one subtree transplanted from the other nor a clone", {**d, "child": str(child)}, {"fn": name, "clause": "naming"})
+                chk.fail("standard crossover child is neither a parent with one subtree transplanted from the other nor a clone", {**d, "child": sstr(child)}, {"fn": name, "clause": "naming"})
             if mirror:
                 u = rs_u.random_sample(3)
                 add({"op": "t_standard", "a": pf[0], "b": pf[1], "p": int(np.floor(len(pf[0]) * u[0])), "q": int(np.floor(len(pf[1]) * u[1])), "coin": bool(u[2] < 0.5), "L": L},
@@ -163,7 +171,7 @@ def main(tier: str) -> int:
                     ok = True
                     break
             if not ok:
-                chk.fail("one-point crossover did not exchange subtrees at a point of the common region", {**d, "child": str(child)}, {"fn": name, "clause": "naming"})
+                chk.fail("one-point crossover did not exchange subtrees at a point of the common region", {**d, "child": sstr(child)}, {"fn": name, "clause": "naming"})
             if mirror:
                 u = rs_u.random_sample(2)
                 add({"op": "t_one_point", "a": pf[0], "b": pf[1], "k": int(np.floor(len(com[0]) * u[0])), "coin": bool(u[1] < 0.5)}, (name, d, cf))
@@ -189,7 +197,7 @@ def main(tier: str) -> int:
                     break
                 pos += max(cands) if len(set(cands)) == 1 else min(cands)
             if not ok:
-                chk.fail("uniform crossover child is not assembled position-wise from the parents inside the common region", {**d, "child": str(child)}, {"fn": name, "clause": "naming"})
+                chk.fail("uniform crossover child is not assembled position-wise from the parents inside the common region", {**d, "child": sstr(child)}, {"fn": name, "clause": "naming"})
             if mirror:
                 if name == "uniform_crossoverGP":
                     pool = [int(x) for x in rs_i.randint(0, k, size=n0)]
@@ -232,7 +240,7 @@ def main(tier: str) -> int:
                      {"fn": name, "clause": "raises", "max_arity": max(before[1])})
             continue
         chk.count(name)
-        chk.case((name, str(t), str(child), proba), sample={**d, "child": str(child)} if len(chk.samples) < 6 else None)
+        chk.case((name, str(t), sstr(child), proba), sample={**d, "child": sstr(child)} if len(chk.samples) < 6 else None)
         if flat_names(t) != before:
             chk.fail("a mutation modified its parent", d, {"fn": name, "clause": "inputs"})
         if not check_child(name, [t], child, max(L, depth_of(before[1])), d):
@@ -247,13 +255,13 @@ def main(tier: str) -> int:
         if proba == 0.0 and (cn, car) != before:
             chk.fail("a mutation with probability 0 changed the tree", d, {"fn": name, "clause": "rate"})
         if depth_of(car) > depth_of(ta) and name != "growing_mutation":
-            chk.fail("a point / swap / shrink mutation made the tree deeper", {**d, "child": str(child)}, {"fn": name, "clause": "depth"})
+            chk.fail("a point / swap / shrink mutation made the tree deeper", {**d, "child": sstr(child)}, {"fn": name, "clause": "depth"})
         if name == "growing_mutation" and depth_of(car) > depth_of(ta):
-            chk.fail("a grow mutation made the tree deeper", {**d, "child": str(child)}, {"fn": name, "clause": "depth"})
+            chk.fail("a grow mutation made the tree deeper", {**d, "child": sstr(child)}, {"fn": name, "clause": "depth"})
         if name == "point_mutation":
             diff = [i for i in range(min(len(cn), len(tn))) if cn[i] != tn[i]]
             if car != ta or len(diff) > 1:
-                chk.fail("point mutation is not a single same-arity symbol replacement", {**d, "child": str(child)}, {"fn": name, "clause": "naming"})
+                chk.fail("point mutation is not a single same-arity symbol replacement", {**d, "child": sstr(child)}, {"fn": name, "clause": "naming"})
             elif mirror and fired:
                 i = int(np.floor(len(tn) * u[1]))
                 if (diff and diff[0] != i):
@@ -279,7 +287,7 @@ def main(tier: str) -> int:
                         ok = True
                         break
             if not ok:
-                chk.fail("swap mutation is not a permutation of the argument subtrees of one node", {**d, "child": str(child)}, {"fn": name, "clause": "naming"})
+                chk.fail("swap mutation is not a permutation of the argument subtrees of one node", {**d, "child": sstr(child)}, {"fn": name, "clause": "naming"})
             if mirror and fired:
                 idxs = [i for i in range(len(ta)) if ta[i] > 1]
                 if idxs:
@@ -306,7 +314,7 @@ def main(tier: str) -> int:
                     if cn == tn[:i] + tn[kk[0]:ke] + tn[e:] and car == ta[:i] + ta[kk[0]:ke] + ta[e:]:
                         ok = True
             if not ok:
-                chk.fail("shrink mutation did not replace a subtree by one of its own argument subtrees", {**d, "child": str(child)}, {"fn": name, "clause": "naming"})
+                chk.fail("shrink mutation did not replace a subtree by one of its own argument subtrees", {**d, "child": sstr(child)}, {"fn": name, "clause": "naming"})
             if mirror and fired and len(tn) > 2:
                 idxs = [i for i in range(len(ta)) if ta[i] > 0]
                 if idxs:
@@ -320,7 +328,7 @@ def main(tier: str) -> int:
             grown_ar = car[i:i + glen]
             sub_depth = depth_of(ta[i:e])
             if glen < 1 or cn[:i] != tn[:i] or cn[i + glen:] != tn[e:] or not TL.wf(grown_ar) or depth_of(grown_ar) > sub_depth:
-                chk.fail("grow mutation did not replace one subtree by a grown tree no deeper than it", {**d, "child": str(child), "index": i}, {"fn": name, "clause": "naming"})
+                chk.fail("grow mutation did not replace one subtree by a grown tree no deeper than it", {**d, "child": sstr(child), "index": i}, {"fn": name, "clause": "naming"})
             else:
                 add({"op": "t_grow_mut", "l": tf, "i": i, "grown": cf[i:i + glen]}, (name, {**d, "index": i}, cf))
 
